@@ -1,6 +1,8 @@
-(* Extraction of the PulseNode model for the correspondence run (ExtrOcamlBasic only). *)
+(* Extraction of the PulseNode model for the correspondence run (ExtrOcamlBasic only).
+   [step] is the model; [step_s] is the same with the recalculation-stack check of Pulse/PulseSafe.v (used by the check
+   to tell histories covered by the *_safe theorems from the re-entrant ones of finding F16). *)
 From Coq Require Import ExtrOcamlBasic.
 From Coq Require Extraction.
 From Coq Require Import NArith.
-From Muscle Require Import Gen.Consts Pulse.PulseModel.
-Extraction "pulse_model.ml" step init_state NEVER dead.
+From Muscle Require Import Gen.Consts Pulse.PulseModel Pulse.PulseSafe.
+Extraction "pulse_model.ml" step step_s init_state NEVER dead.
